@@ -205,6 +205,59 @@ func c12Spawn(w *ndWriter) int {
 		ch.Close()
 	}()
 	c1.Close()
+	// a burst: several children spawned back to back (from the harness and from inside the parent's own effect), looked up only
+	// AFTER all of them exist; then the parent is closed and every child - still open - must go on processing what it is sent
+	for round := 0; round < 12; round++ {
+		n := 2 + round%5
+		kids := make([]*fpgo.ActorDef[int], 0, n)
+		logs := make([]chan got, 0, n)
+		spawned := make(chan struct{})
+		var parent *fpgo.ActorDef[int]
+		inside := round%2 == 1
+		parent = fpgo.ActorNewGenerics(func(self *fpgo.ActorDef[int], v int) {
+			if v == -1 {
+				for k := 0; k < n; k++ {
+					l := make(chan got, 4)
+					logs = append(logs, l)
+					kids = append(kids, self.Spawn(mk(l)))
+				}
+				close(spawned)
+			}
+		})
+		if inside {
+			parent.Send(-1)
+			select {
+			case <-spawned:
+			case <-time.After(2 * time.Second):
+			}
+		} else {
+			for k := 0; k < n; k++ {
+				l := make(chan got, 4)
+				logs = append(logs, l)
+				kids = append(kids, parent.Spawn(mk(l)))
+			}
+		}
+		lookedUp := make([]bool, len(kids))
+		for k, c := range kids {
+			lookedUp[k] = parent.GetChild(c.GetID()) == c && c.GetParent() == parent
+		}
+		parent.Close()
+		for k, c := range kids {
+			independent := true
+			c.Send(100 + k)
+			select {
+			case g := <-logs[k]:
+				independent = g.self == c && g.v == 100+k
+			case <-time.After(2 * time.Second):
+				independent = false
+			}
+			rec.ev(E{"ev": "spawn", "parentClosed": false, "parentLinked": lookedUp[k], "childLinked": lookedUp[k], "independent": independent, "s": 0, "i": 0})
+			c.Close()
+		}
+		if len(kids) != n {
+			rec.ev(E{"ev": "spawn", "parentClosed": false, "parentLinked": false, "childLinked": false, "independent": false, "s": 0, "i": 0})
+		}
+	}
 	return rec.flush(w)
 }
 
